@@ -181,7 +181,7 @@ def makeUncheckedKw (E : Ext) (info : PaneInfo) (vals : List (String × Val)) : 
   match fillDefaults E (Facts.initDefaultCalled == some true) info.fields vals with
   | none => .error { cls := .typeError, msg := "TypeError: missing a required argument" }
   | some all =>
-    match runHook E info all with
+    match runHook E info all (vals.map (·.1)) with
     | .ok final => .ok (mkObj info final (vals.map (·.1)))
     | .error e => .error e
 
